@@ -187,23 +187,23 @@ type slot struct {
 	sid  uint64
 	side *side
 	// written: bytes acknowledged by Write; readPos: bytes returned by Read.
-	written, readPos                                      int
-	offered                                               int // written + size of the Write in progress
-	cwInvoked, cwReturned, closeInvoked, closeReturned    bool
-	rdl, wdl                                              time.Time
-	sawEOF                                                bool
-	drained                                               bool
+	written, readPos                                   int
+	offered                                            int // written + size of the Write in progress
+	cwInvoked, cwReturned, closeInvoked, closeReturned bool
+	rdl, wdl                                           time.Time
+	sawEOF                                             bool
+	drained                                            bool
 }
 
 type side struct {
-	name         string
-	mux          *multiplexing.Multiplexer
-	slots        map[int]*slot
-	peer         *side
-	closeInvoked bool
+	name          string
+	mux           *multiplexing.Multiplexer
+	slots         map[int]*slot
+	peer          *side
+	closeInvoked  bool
 	closeReturned bool
-	backlog      int
-	window       int
+	backlog       int
+	window        int
 }
 
 type opState struct {
